@@ -23,10 +23,13 @@ SPEC = dict(
          'the sibling, dangling, to ".", ".." and to themselves) and 3..9 Directory::create / Directory::unlink calls over path classes; a recursive libc snapshot (names, types, sizes, '
          'content hashes, link targets) of the whole case root is taken before and after every call: create returns true iff stat says directory afterwards (and must succeed when all '
          'existing prefixes are directories), only directories at or below the first missing component may appear; unlink result as expected, a removed tree is gone, everything outside '
-         'it is byte-identical. non-trivial = a tree containing symbolic links was removed and a create was checked.',
+         'it is byte-identical; Directory::exists on the argument of every create / unlink call agrees with stat afterwards. non-trivial = a tree containing symbolic links was removed and a '
+         'create was checked. Entry names: in 3 tree cases of 4 every second entry (file, directory, symbolic link, FIFO, hard link; at any depth) and the new components of created paths have a '
+         'name starting with dots ("..data", "...", "..a", "..2024_03_01", ".hidden", "..3", "...1", ".. 2"); in 3 files / files-alias cases of 8 the three file names are such names.',
     assumptions=['ext4 scratch directory /verif/.work/<pid> (d_type always set); the checks run as root, so permission failures are represented only by injected EACCES',
                  'lexical equivalence treats "/" and "\\" as separators, "" as ".", and "/.." as "/"; paths with ":" (Windows drives) are not generated',
                  'getRelativePath: for inputs without a lexical answer (absolute/relative mix, unresolvable ".." left in from) only an empty result or a correct one is accepted',
+                 'a directory entry whose name merely starts with "." or ".." ("..data", "...") is an ordinary entry; only the names "." and ".." themselves are special',
                  'copying a file onto itself and renaming a directory with File::rename are outside the statement and not generated',
                  'an injected failure of lseek is only used for seek()/size()/readAll(), never inside open()/copy() (not a realistic failure of a regular file)',
                  'ASan/UBSan red zones; library ASSERTs enabled (-DDEBUG)'],
@@ -45,12 +48,20 @@ SPEC = dict(
                     symlinks_inside_removed_trees=1000, snapshot_entries_compared=80000, create_true=1000, create_false=500,
                     aliased_path_arguments=20000, failing_calls_with_aliased_path=10000, sweep_ops=15000, rename_missing_source_alias_of_dst_failIfExists=1500,
                     rename_missing_source_alias_of_dst_replace=400, rename_existing_source_alias_of_dst=300,
+                    tree_entries_built_with_dotdot_prefixed_name=6000, tree_entries_built_with_dot_prefixed_name=3000, dotdot_prefixed_names_inside_removed_trees=1500,
+                    dot_prefixed_names_inside_removed_trees=800, trees_removed_containing_dotdot_prefixed_names=500, creates_with_dot_prefixed_components_true=800,
+                    file_cases_with_dot_prefixed_names=2000, op_exists_dir=5000,
+                    **{'set:dotdot_prefixed_entry_types_built': 5, 'set:dotdot_prefixed_entry_types_removed': 4, 'set:file_leaf_names': 12},
                     **{'set:create_classes': 9, 'set:unlink_classes': 8, 'set:injected_functions': 8, 'set:rel_classes': 8, 'set:alias_spellings': 7,
                        'set:rename_missing_alias_pairs': 56, 'set:rename_existing_alias_pairs': 40}),
             T: dict(path_inputs=10000000, cmp_relative=3000000, rel_answers=1500000, ops=2500000, bytes_compared=2000000000, ops_with_injected_failure=120000, trees_removed=20000,
                     symlinks_inside_removed_trees=25000, snapshot_entries_compared=2000000, create_true=25000, create_false=12000,
                     aliased_path_arguments=800000, failing_calls_with_aliased_path=400000, sweep_ops=600000, rename_missing_source_alias_of_dst_failIfExists=60000,
                     rename_missing_source_alias_of_dst_replace=15000, rename_existing_source_alias_of_dst=12000,
+                    tree_entries_built_with_dotdot_prefixed_name=120000, tree_entries_built_with_dot_prefixed_name=60000, dotdot_prefixed_names_inside_removed_trees=30000,
+                    dot_prefixed_names_inside_removed_trees=16000, trees_removed_containing_dotdot_prefixed_names=10000, creates_with_dot_prefixed_components_true=16000,
+                    file_cases_with_dot_prefixed_names=40000, op_exists_dir=100000,
+                    **{'set:dotdot_prefixed_entry_types_built': 5, 'set:dotdot_prefixed_entry_types_removed': 4, 'set:file_leaf_names': 12},
                     **{'set:create_classes': 9, 'set:unlink_classes': 8, 'set:injected_functions': 8, 'set:rel_classes': 8, 'set:alias_spellings': 7,
                        'set:rename_missing_alias_pairs': 56, 'set:rename_existing_alias_pairs': 56})},
 )
